@@ -12,6 +12,7 @@ import (
 	"google.golang.org/protobuf/types/dynamicpb"
 
 	"verif/harness/internal/ev"
+	"verif/harness/internal/refwire"
 )
 
 // ---------------- C16: the generator is total, deterministic and emits compiling code ----------------
@@ -288,7 +289,7 @@ func posOf(unset []string) string {
 }
 
 func TestC17(t *testing.T) {
-	rec := ev.New("C17", "case = (generated type - proto2, or proto3 with imported proto2 children - with required fields of its own or in children reached through a field / required field / list / map / oneof, subset of those required fields left unset); every subset is enumerated per type (up to 2^8) with the required scalars set to the zero value of their kind and to 1, and the complete message and every single-field subset with 7 further boundary values, plus the completely empty message and the empty input; oracle = reference verdict: Marshal fails <=> proto.CheckInitialized fails; generated Unmarshal of the reference's AllowPartial encoding fails <=> the strict reference Unmarshal fails; non-trivial = >= 1 required field unset; distinct by (type, subset, value choice)")
+	rec := ev.New("C17", "case = (generated type - proto2, or proto3 with imported proto2 children - with required fields of its own or in children reached through a field / required field / list / map / oneof, subset of those required fields left unset); every subset is enumerated per type (up to 2^8) with the required scalars set to the zero value of their kind and to 1, and the complete message and every single-field subset with 7 further boundary values, plus the completely empty message and the empty input, plus inputs that carry the unset field's number with a mismatching wire type; oracle = reference verdict: Marshal fails <=> proto.CheckInitialized fails; generated Unmarshal of the reference's AllowPartial encoding fails <=> the strict reference Unmarshal fails; non-trivial = >= 1 required field unset; distinct by (type, subset, value choice)")
 	defer rec.Write()
 	useRecorder(rec)
 	defer func() { t.Log(rec.Summary()); fmt.Print(rec.SurveyReport()) }()
@@ -336,6 +337,30 @@ func TestC17(t *testing.T) {
 					rec.Class("complete-message")
 				}
 				rec.Check(t, "rcase", c, oracleC17(c))
+				// the unset field's NUMBER is on the wire after all, but with another wire type (a conforming reader
+				// keeps that as an unknown field): the required field is still missing
+				if vi <= 1 && mask != 0 && mask&(mask-1) == 0 {
+					for i, s := range slots {
+						if mask&(1<<i) == 0 || len(s.path) != 0 || s.fd.Message() != nil {
+							continue
+						}
+						for _, alt := range [][]byte{
+							refwire.AppendLen(refwire.AppendKey(nil, int(s.fd.Number()), refwire.WTLen), nil),
+							refwire.AppendLen(refwire.AppendKey(nil, int(s.fd.Number()), refwire.WTLen), []byte{0x10, 0x05}),
+							refwire.AppendFixed32(refwire.AppendKey(nil, int(s.fd.Number()), refwire.WTFixed32), 7),
+							refwire.AppendVarint(refwire.AppendKey(nil, int(s.fd.Number()), refwire.WTVarint), 1),
+						} {
+							if wt := int(alt[0] & 7); wt == wireTypeOf(s.fd.Kind()) { // (a varint's low bits come first)
+								continue // (that IS the field's wire type: not a mismatch)
+							}
+							c2 := &RCase{Type: mt.Key(), Value: append(append([]byte{}, b...), alt...), Unset: unset}
+							rec.Eval(1)
+							rec.NonTrivialEnum(1)
+							rec.Class("unset-field-number-present-with-another-wire-type")
+							rec.Check(t, "rcase", c2, oracleC17(c2))
+						}
+					}
+				}
 			}
 		}
 		// the empty message and the empty input
